@@ -24,6 +24,25 @@ def run(F, rep, tier):
     n_res = safety.error_discipline(F, G, rep, R)
     rep.floor("io::Result-returning call sites", n_res, 100)
     ext = safety.blocking_rule(F, G, rep, R)
+    # positive controls: the inventory is not vacuous and the termination classifier can say "no"
+    import json, os, tempfile, tir
+    r2 = common.Report("ctl", "quick")
+    empty = os.path.join(safety.VERIF, "rules", "_empty_invariants.json")
+    with open(empty, "w") as fh:
+        json.dump({"invariants": []}, fh)
+    try:
+        safety.panic_inventory(F, G, r2, ENTRIES, "_empty_invariants.json", M=M, gate_ok=gate_ok)
+    finally:
+        os.unlink(empty)
+    rep.control("without the invariant table exactly the class-I sites are reported", len(r2.violations) == rep.counts.get("P.I", -1) and len(r2.violations) > 0)
+    r3 = common.Report("ctl", "quick")
+    safety.panic_inventory(F, G, r3, ENTRIES, "c06_invariants.json", M=M, gate_ok={})
+    rep.control("without the layout model's gate consistency the gated-column unwraps are reported", len(r3.violations) == rep.counts.get("P.G", -1) and len(r3.violations) > 0)
+    fc = F.body("io::slippi::de::ParseState::frame_close")
+    loops = [n for n in tir.walk(fc["tir"]["value"]) if n.get("k") == "Loop"]
+    cons = safety.Consume(F, G)
+    cons.in_loop = True
+    rep.control("the consumption classifier rejects a loop that reads nothing", bool(loops) and not any(cons.must(l["body"]) for l in loops))
     unresolved = sorted(c for c in ext if c.startswith("<indirect") or c.startswith("std::io::Read::") or c.startswith("std::io::Seek::"))
     rep.assumptions += ["calls through the caller's R: Read/Seek (%s) return io::Result without panicking" % ", ".join(unresolved[:6]),
                         "external callees not listed in the panic-by-contract table do not panic on any input (byteorder, arrow2 push/with_capacity, encoding_rs, serde_json::Map, xxhash)",
